@@ -31,7 +31,7 @@ def run(rep):
     rng = random.Random(f'{rep.seed}/c11')
     args = [(f'schema:{k}', a) for k, a in corpus.schemas().items()]
     # one-rule arguments: a rule that is wrong in ONE logic of a declared pair shows up as a broken inclusion
-    args += [(f'sys:{k}', a) for k, a in sorted(corpus.systematic(prop_only=not thorough).items())]
+    args += [(f'sys:{k}', a) for k, a in sorted(corpus.systematic(prop_only=False).items())]
     nrand = 400 if thorough else 60
     for n in range(nrand):
         kind = ['prop', 'prop', 'prop', 'modal', 'modal', 'fo'][n % 6]
